@@ -110,29 +110,31 @@ Inductive sql_out := SqlNone | SqlRender (version : N) (acts : list action) (bas
 Definition prefixed_baseline (pfx : string) (plans : list plan) : result schema planner_error :=
   replay (map (plan_with_prefix pfx) plans).
 
+(* the part of cmd_sql after the loaders *)
+Definition sql_core (pfx : string) (models : schema) (plans : list plan) : cres sql_out :=
+  match replay plans with                                                        (* sql.rs:15-16 *)
+  | Err e => Err (EBaseline e)
+  | Ok baseline =>
+      match diff_actions baseline models with                                    (* sql.rs:17-19 *)
+      | Err e => Err (EPlanning (PlanDiff e))
+      | Ok acts =>
+          let pplan := plan_with_prefix pfx (mkPlan "" None None (next_version plans) acts) in   (* sql.rs:23 *)
+          match prefixed_baseline pfx plans with                                 (* sql.rs:24-29 *)
+          | Err e => Err (EBaseline e)
+          | Ok pb =>
+              Ok (if is_nil (p_actions pplan) then SqlNone
+                  else SqlRender (p_version pplan) (p_actions pplan) pb)
+          end
+      end
+  end.
+
 Definition cmd_sql (P : project) : cres sql_out :=
   match load_models P with
   | Err e => Err e
   | Ok models =>
       match load_migrations P with
       | Err e => Err e
-      | Ok plans =>
-          match replay plans with                                                (* sql.rs:15-16 *)
-          | Err e => Err (EBaseline e)
-          | Ok baseline =>
-              match diff_actions baseline models with                            (* sql.rs:17-19 *)
-              | Err e => Err (EPlanning (PlanDiff e))
-              | Ok acts =>
-                  let pfx := pj_prefix P in
-                  let pplan := plan_with_prefix pfx (mkPlan "" None None (next_version plans) acts) in   (* sql.rs:23 *)
-                  match prefixed_baseline pfx plans with                         (* sql.rs:24-29 *)
-                  | Err e => Err (EBaseline e)
-                  | Ok pb =>
-                      Ok (if is_nil (p_actions pplan) then SqlNone
-                          else SqlRender (p_version pplan) (p_actions pplan) pb)
-                  end
-              end
-          end
+      | Ok plans => sql_core (pj_prefix P) models plans
       end
   end.
 
